@@ -1,13 +1,223 @@
 /-
-  Driver.OpsC05 — protocol operations for property C05 (filled in by the C05 work package).
-  Contract: `handleC05 op` returns the parser for operation `op` or `none` if `op` is not one of
-  this property's operations.
+  Driver.OpsC05 — protocol operations for property C05 (VTK reading is independent of the encoding).
+
+  bytes   := `x` followed by hex digit pairs (`x` alone = empty)
+  cfg     := <hs> <le|be> <b64 0|1> <compressed 0|1> <joint 0|1> <blocksize>
+  table   := <m> { <bytes key> <bytes value> }      finite codec oracle supplied by the harness
+
+  c05enc  cfg <k> { <sz> <bytes items-LE> } table        → enc=<bytes>,…      (spec writer; table = compress)
+  c05read cfg <n> { <bytes data> } <k> { <dataidx> <offset> <sz> } table
+                                                         → model=<bytes|E>,…  (model reader; table = decompress)
+  c05blk  cfg <n> { <bytes data> } <k> { <dataidx> <offset> }
+                                                         → blocks=<rbs>:<bytes>;<bytes>…,…  | E per array
+  c05vtuw <k> { <type> <nc> c_1 … c_nc } <m> { <nrows=k> <bytes row>… }
+          → conn=… offs=… types=… spec=<layout> model=<layout|E> cdspec=… cdmodel=…
+  c05vtu  <list corners> <list offsets> <list types> <m> { <nrows> <bytes row>… }
+          → model=<layout|E> cd=<…|E>
+  c05vtp  <list flat> <list offsets>                     → model=<rows>
+  c05vtpidx <list sizes>                                 → model=<ranges>
+  c05b64d <bytes> → model=<bytes|E>      c05b64e <bytes> → model=<bytes>
+  c05encb <n>     → b64=<n> raw=<n>
+  c05ascw <signed 0|1> <sz> <bytes items-LE>             → toks=<int,…> model=<bytes> (asciiRead of the tokens)
+  c05ascr <sz> <list int tokens>                         → model=<bytes>
+  c05fallback <bytes file-content>                       → model=<bytes appendix|E> enc=<bytes encoding name|->
+  layout := t:row;row;…:i.j.k|…     row := i.j.k  (`-` = empty)
 -/
 import Driver.Proto
+import FcModel.Spec.C05
+import FcModel.VtkAppendix
 namespace Fc.Drv
+open Fc
+
+def hexDigit (c : Char) : Option Nat :=
+  if '0' ≤ c ∧ c ≤ '9' then some (c.toNat - 48)
+  else if 'a' ≤ c ∧ c ≤ 'f' then some (c.toNat - 87)
+  else none
+
+def hexPairs : List Char → Option (List Nat)
+  | [] => some []
+  | [_] => none
+  | a :: b :: r => do
+    let x ← hexDigit a
+    let y ← hexDigit b
+    let t ← hexPairs r
+    some ((x * 16 + y) :: t)
+
+def pBytes : P (List Nat) := do
+  let t ← tok
+  match t.toList with
+  | 'x' :: r => match hexPairs r with
+    | some l => pure l
+    | none => failure
+  | _ => failure
+
+def hexChar (n : Nat) : Char := if n < 10 then Char.ofNat (48 + n) else Char.ofNat (87 + n)
+
+def showBytes (l : List Nat) : String :=
+  String.ofList ('x' :: (l.foldr (fun b acc => hexChar (b / 16 % 16) :: hexChar (b % 16) :: acc) []))
+
+def showOpt (o : Option (List Nat)) : String :=
+  match o with
+  | some l => showBytes l
+  | none => "E"
+
+def pBo : P ByteOrder := do
+  let t ← tok
+  match t with
+  | "le" => pure .le
+  | "be" => pure .be
+  | _ => failure
+
+def pCfg : P Spec.WriteCfg := do
+  let hs ← pNat
+  let bo ← pBo
+  let b64 ← pBool
+  let comp ← pBool
+  let joint ← pBool
+  let bs ← pNat
+  if hs = 0 then failure
+  pure ⟨⟨hs, bo, b64, comp⟩, joint, bs⟩
+
+def pTable : P (List (List Nat × List Nat)) :=
+  pList (do let k ← pBytes; let v ← pBytes; pure (k, v))
+
+def sepBy (sep : String) (l : List String) : String := sep.intercalate l
+
+def opEnc : P String := do
+  let w ← pCfg
+  let arrs ← pList (do let sz ← pNat; let b ← pBytes; pure (sz, b))
+  let tbl ← pTable
+  -- a total `compress` for the spec writer; blocks missing from the table are detected beforehand
+  let compress : List Nat → List Nat := fun b => (tbl.lookup b).getD []
+  let missing := w.rc.compressed && arrs.any (fun (sz, b) =>
+    (chunks w.blockSize (Spec.toFileOrder w.rc.bo sz b)).any (fun blk => (tbl.lookup blk).isNone))
+  if missing then pure "enc=E-table" else
+  if w.rc.compressed && w.blockSize = 0 then pure "enc=E-blocksize" else
+  pure s!"enc={sepBy "," (arrs.map (fun (sz, b) => showBytes (Spec.encodeArray w compress sz b)))}"
+
+def opRead : P String := do
+  let w ← pCfg
+  let datas ← pList pBytes
+  let arrs ← pList (do let i ← pNat; let o ← pNat; let sz ← pNat; pure (i, o, sz))
+  let tbl ← pTable
+  let decompress : List Nat → Nat → Option (List Nat) := fun b _ => tbl.lookup b
+  let res := arrs.map (fun (i, o, sz) =>
+    match datas[i]? with
+    | none => "E-idx"
+    | some d => showOpt (readArray w.rc decompress sz (appendixGet d o)))
+  pure s!"model={sepBy "," res}"
+
+def opBlk : P String := do
+  let w ← pCfg
+  let datas ← pList pBytes
+  let arrs ← pList (do let i ← pNat; let o ← pNat; pure (i, o))
+  let res := arrs.map (fun (i, o) =>
+    match datas[i]? with
+    | none => "E-idx"
+    | some d => match compBlocks w.rc.hs w.rc.bo w.rc.enc (appendixGet d o) with
+      | none => "E"
+      | some (rbs, sl) => s!"{rbs}:{sepBy ";" (sl.map showBytes)}")
+  pure s!"blocks={sepBy "," res}"
+
+def showNats (l : List Nat) : String := if l.isEmpty then "-" else sepBy "." (l.map toString)
+
+def showLayout (l : List (Nat × List (List Nat) × List Nat)) : String :=
+  if l.isEmpty then "-" else
+  sepBy "|" (l.map (fun (t, rows, idxs) => s!"{t}:{sepBy ";" (rows.map showNats)}:{showNats idxs}"))
+
+def showCd (l : List (Nat × List (List Nat))) : String :=
+  if l.isEmpty then "-" else
+  sepBy "|" (l.map (fun (t, rows) => s!"{t}:{sepBy ";" (rows.map showBytes)}"))
+
+def showCds (o : List (Option (List (Nat × List (List Nat))))) : String :=
+  if o.isEmpty then "-" else sepBy "," (o.map (fun x => match x with | some l => showCd l | none => "E"))
+
+def pCellData : P (List (List (List Nat))) := pList (pList pBytes)
+
+def opVtuW : P String := do
+  let cs ← pList (do let t ← pNat; let c ← pList pNat; pure (t, c))
+  let cds ← pCellData
+  let (conn, offs, types) := Spec.vtuArrays cs
+  let spec := Spec.vtuContent cs
+  let model := vtuLayout conn offs types
+  let cdspec := cds.map (fun rows => some (Spec.cellDataContent cs rows))
+  let cdmodel := cds.map (fun rows => match model with
+    | none => none
+    | some lay => splitCellData rows lay)
+  let ms := match model with | some l => showLayout l | none => "E"
+  pure s!"conn={showNats conn} offs={showNats offs} types={showNats types} spec={showLayout spec} model={ms} cdspec={showCds cdspec} cdmodel={showCds cdmodel}"
+
+def opVtu : P String := do
+  let conn ← pList pNat
+  let offs ← pList pNat
+  let types ← pList pNat
+  let cds ← pCellData
+  let model := vtuLayout conn offs types
+  let cdmodel := cds.map (fun rows => match model with
+    | none => none
+    | some lay => splitCellData rows lay)
+  let ms := match model with | some l => showLayout l | none => "E"
+  pure s!"model={ms} cd={showCds cdmodel}"
+
+def opVtp : P String := do
+  let flat ← pList pNat
+  let offs ← pList pNat
+  let rows := vtpRows flat offs
+  pure s!"model={if rows.isEmpty then "-" else sepBy ";" (rows.map showNats)}"
+
+def opVtpIdx : P String := do
+  let sizes ← pList pNat
+  let r := vtpIndexRanges sizes 0
+  pure s!"model={if r.isEmpty then "-" else sepBy ";" (r.map showNats)}"
+
+def opB64d : P String := do
+  let b ← pBytes
+  pure s!"model={showOpt (b64decodeLenient b)}"
+
+def opB64e : P String := do
+  let b ← pBytes
+  pure s!"model={showBytes (b64encode b)}"
+
+def opEncB : P String := do
+  let n ← pNat
+  pure s!"b64={b64Encoder.encodedBytes n} raw={rawEncoder.encodedBytes n}"
+
+def showInts (l : List Int) : String := if l.isEmpty then "-" else sepBy "," (l.map toString)
+
+def opAscW : P String := do
+  let signed ← pBool
+  let sz ← pNat
+  let b ← pBytes
+  if sz = 0 then failure
+  let toks := Spec.asciiTokens signed sz b
+  pure s!"toks={showInts toks} model={showBytes (asciiRead sz toks)}"
+
+def opAscR : P String := do
+  let sz ← pNat
+  let toks ← pList pInt
+  pure s!"model={showBytes (asciiRead sz toks)}"
+
+def opFallback : P String := do
+  let content ← pBytes
+  match fallbackAppendix content with
+  | some (app, enc) => pure s!"model={showBytes app} enc={showBytes enc}"
+  | none => pure "model=E enc=-"
 
 def handleC05 (op : String) : Option (P String) :=
   match op with
+  | "c05enc" => some opEnc
+  | "c05read" => some opRead
+  | "c05blk" => some opBlk
+  | "c05vtuw" => some opVtuW
+  | "c05vtu" => some opVtu
+  | "c05vtp" => some opVtp
+  | "c05vtpidx" => some opVtpIdx
+  | "c05b64d" => some opB64d
+  | "c05b64e" => some opB64e
+  | "c05encb" => some opEncB
+  | "c05ascw" => some opAscW
+  | "c05ascr" => some opAscR
+  | "c05fallback" => some opFallback
   | _ => none
 
 end Fc.Drv
